@@ -24,6 +24,54 @@ CHECKS = {
   ref="DESIGN.md §3 C08",
   note=CONN_NOTE + " Ownership ghost: a success PUBREC that the library does not answer with PUBREL itself makes the application responsible for the id.",
   technique="Coq proofs of the id API on top of the C20 allocator refinement + ownership-ghost monitor + differential correspondence"),
+ "C05": dict(
+  text="Coq theorems, Closed under the global context, for every state: after notify_closed the connection is Disconnected with an empty frame "
+       "builder and a client's CONNECT is then accepted; every refused frame is reported by an error event, delivers nothing and keeps the "
+       "session state. PARTIAL (C05_partial): 'no call panics / no wrap / finite events' over all histories is decided by running every "
+       "call of the implementation under catch_unwind in a debug build (overflow checks, debug assertions) with the full-digest "
+       "correspondence to the model (whose Panic outcomes mark core.rs's unwrap/assert sites) and the monitor mon_c05 (panic, frame neither "
+       "delivered nor answered nor reported, no progress); model functions are total by construction. Known finding F-05c is reported as KNOWN-FINDING.",
+  ref="DESIGN.md §3 C05, §4 F-05c",
+  note=CONN_NOTE + " C05 compares the complete 34-field digest, all events, return values and panics.",
+  technique="Coq per-step proofs + catch_unwind monitor + full-state differential correspondence"),
+ "C06": dict(
+  text="Coq theorems, Closed under the global context, for every state: an acknowledgement (PUBACK/PUBREC/PUBCOMP) that matches nothing in flight "
+       "is handled exactly as a protocol error, whose outcome erases no stored packet and frees no identifier; on v3.1.1 an accepted QoS>0 "
+       "PUBLISH is requested for sending or is in the store. PARTIAL (C06_partial): the history clauses (stored until exactly the matching "
+       "acknowledgement; retransmission right after CONNACK in store order with DUP, full topic, same ids; emptied when the session is not "
+       "present; v5.0 accepted-implies-sent-or-stored) are decided by the monitor mon_c06 (ghost store from operations/events vs exported store "
+       "and in-flight sets) and the correspondence, not yet by theorems.",
+  ref="DESIGN.md §3 C06",
+  note=CONN_NOTE,
+  technique="Coq per-step proofs + ghost-store monitor + differential correspondence"),
+ "C07": dict(
+  text="Coq theorems, Closed under the global context, for every state: on v3.1.1 a QoS 2 PUBLISH whose id is in the handled set is not notified "
+       "and stays handled; on both versions a PUBREL removes the id from the handled set so the next PUBLISH is a new message; automatically "
+       "generated acknowledgements notify nothing and leave the set alone. PARTIAL (C07_partial): exactly-once over all histories (incl. v5.0, "
+       "reconnects, export/restore, error PUBREC, new session) is decided by the monitor mon_c07 (ghost set of notified-and-unreleased ids "
+       "from the events) and the correspondence, not yet by a theorem.",
+  ref="DESIGN.md §3 C07",
+  note=CONN_NOTE,
+  technique="Coq per-step proofs + exactly-once ghost monitor + differential correspondence"),
+ "C13": dict(
+  text="Coq theorems, Closed under the global context, for every state: a received PUBLISH with an empty topic is delivered with exactly the "
+       "topic bound to its alias on this connection, or rejected as Topic Alias invalid; both alias tables are dropped by notify_closed; "
+       "what is stored for retransmission carries the full topic, no alias and DUP. PARTIAL (C13_partial): the send-side history clause "
+       "(an empty topic is only sent with an alias that an earlier PUBLISH sent on this connection bound to that topic, incl. auto-map/"
+       "auto-replace/LRU) is decided by the monitor mon_c13 (independent receiver-side alias table replayed over the sent packets) and the "
+       "correspondence, not yet by a theorem.",
+  ref="DESIGN.md §3 C13",
+  note=CONN_NOTE,
+  technique="Coq per-step proofs + independent receiver-table monitor + differential correspondence"),
+ "C14": dict(
+  text="Coq theorems, Closed under the global context, for every state, limit and size: a v5.0 packet of any kind larger than the peer's Maximum "
+       "Packet Size is never passed to the transport; an alias-rewritten publish is re-checked; everything retransmitted from the store fits "
+       "and what does not fit is dropped; an inbound frame larger than the local maximum is never delivered and is reported as Packet too "
+       "large (never panics). PARTIAL (C14_partial): the single statement over all send paths incl. automatic responses is decided by the "
+       "monitor mon_c14 (size <= limit for every ESend of the implementation, release of dropped ids, DISCONNECT 0x95) and the correspondence.",
+  ref="DESIGN.md §3 C14",
+  note=CONN_NOTE,
+  technique="Coq all-states proofs for direct/rewritten/stored/inbound paths + size monitor + differential correspondence"),
  "C12": dict(
   text="Coq theorems, Closed under the global context, for every state and every M: the vacancy getter is M minus the counter saturating at "
        "zero (never wraps or panics); a QoS>0 PUBLISH arriving when the peer already has the announced maximum outstanding is answered "
